@@ -41,7 +41,9 @@ def events(ids: list[Any], pars: list[Any]) -> list[OTelEvent]:
         eid = IDS[i]
         parent: Optional[str] = None
         if p == 1:
-            parent = IDS[0] if eid != IDS[0] else "zz"  # "zz": a parent id that is never ingested
+            # a child of the first id; the first id itself writes "no parent" as the EMPTY STRING (as OTLP/JSON exporters do):
+            # it must be stored as a root (NULL parent) without a link row
+            parent = IDS[0] if eid != IDS[0] else ""
         out.append(OTelEvent.model_construct(
             job_name=f"name{n}", job_id=f"t{n % 2}", event_type=f"T{n}", event_id=eid,
             start_timestamp=10 + n, end_timestamp=20 + n, application_name=f"app{n}",
@@ -57,8 +59,8 @@ def expected(evs: list[OTelEvent]) -> tuple[list[tuple], list[tuple]]:
             continue
         seen.append(e.event_id)
         nodes.append((e.job_name, e.job_id, e.event_type, e.event_id, e.start_timestamp, e.end_timestamp,
-                      e.application_name, e.parent_event_id))
-        if e.parent_event_id is not None:
+                      e.application_name, e.parent_event_id or None))
+        if e.parent_event_id:
             assoc.append((e.parent_event_id, e.event_id))
     return nodes, sorted(assoc)
 
